@@ -154,6 +154,25 @@ func (h *H) faultActions(rt *rapid.T, fc *faultCounters) map[string]func(*rapid.
 			}
 			h.App.Step()
 			h.releaseAcks(rapid.IntRange(1, 4).Draw(rt, "n"))
+			// … and a publisher on the other level stores meanwhile too
+			var other *sim.Call
+			if rapid.Bool().Draw(rt, "otherLevelMeanwhile") {
+				other = h.pub(3-level, false)
+			}
+			defer func() {
+				if other == nil {
+					return
+				}
+				h.SettleCall(other)
+				for _, c := range h.accepted[3-level] {
+					if c == other {
+						return
+					}
+				}
+				if h.IsDone(other) && other.Err == nil {
+					h.accepted[3-level] = append(h.accepted[3-level], other)
+				}
+			}()
 			h.Act("slowSave: released")
 			h.Store.Release()
 			h.Store.ClearParks()
